@@ -30,6 +30,23 @@ def impl(case):
             except Exception as e:  # noqa
                 out.append(type(e).__name__)
         return {"res": out}
+    if case.get("op") == "legsop":
+        from paulie import get_pauli_string
+        from paulie.classifier.morph_factory import MorphFactory
+        out = []
+        for legs, op, args in case["items"]:
+            m = MorphFactory()
+            m.legs = [list(get_pauli_string(leg)) for leg in legs]
+            try:
+                a = [get_pauli_string(x) for x in args]
+                if op == "find":
+                    out.append(["ret", list(m.find(a[0]))])
+                else:
+                    getattr(m, op)(*a)
+                    out.append(["legs", [[str(x) for x in leg] for leg in m.legs]])
+            except Exception as e:  # noqa
+                out.append(["exc", type(e).__name__])
+        return {"res": out}
     from harness import cls
     out, c, _ = cls.classify(case["gens"], routes=case.get("routes"), trace=True)
     # repetition inside one process: same object, fresh classify(), fresh object
@@ -135,6 +152,32 @@ def validate_queue_translation(ck, base, count):
         exp = "FRet tt" if r == "pass" else 'FRaised (EUser "%s"%%string)' % r
         lines.append("Definition c%d : bool := sameu (py_Q_check_dependency_one_leg [%s] %s) (%s)." % (len(kept), ";".join("[" + ";".join(coq_pstr(x) for x in leg) + "]" for leg in legs), coq_pstr(lighting), exp))
         kept.append((["check_dependency_one_leg", legs, lighting], r))
+    # find / append / remove / replace on arbitrary leg lists (mostly sorted by length as the pipeline keeps them, vertices distinct or not)
+    litems = []
+    for _ in range(count):
+        n = ck.rng.randint(2, 4)
+        pool = [G.uniform(ck.rng, n) for _ in range(12)]
+        legs = [[ck.rng.choice(pool)]] + [[ck.rng.choice(pool) for _ in range(ck.rng.choice([1, 1, 1, 2, 2, 3, 4]))] for _ in range(ck.rng.randint(0, 5))]
+        legs[1:] = sorted(legs[1:], key=len) if ck.rng.random() < 0.8 else legs[1:]
+        verts = [v for leg in legs for v in leg]
+        op = ck.rng.choice(["find", "append", "append", "remove", "remove", "replace"])
+        tgt = ck.rng.choice([leg[-1] for leg in legs] + verts) if ck.rng.random() < 0.9 else G.uniform(ck.rng, n)
+        args = [tgt] if op in ("find", "remove") else ([G.uniform(ck.rng, n), tgt] if op == "append" else [tgt, G.uniform(ck.rng, n)])
+        litems.append([legs, op, args])
+    lres = [r for rr in ck.impl("c03", [{"op": "legsop", "items": litems[i:i + 100]} for i in range(0, len(litems), 100)], per_case_s=120) for r in rr["res"]]
+    lkinds = {}
+    coq_legs = lambda L: "[" + ";".join("[" + ";".join(coq_pstr(x) for x in leg) + "]" for leg in L) + "]"
+    for (legs, op, args), r in zip(litems, lres):
+        lkinds[op + ":" + (r[1] if r[0] == "exc" else "ok")] = lkinds.get(op + ":" + (r[1] if r[0] == "exc" else "ok"), 0) + 1
+        call = {"find": "py_Q_find %s %s", "append": "py_Q_append %s false %s %s", "remove": "py_Q_remove %s %s", "replace": "py_Q_replace %s %s %s"}[op] % tuple([coq_legs(legs)] + [coq_pstr(a) for a in args])
+        if r[0] == "exc":
+            lines.append('Definition c%d : bool := match %s with FRaised e_ => exn_eqb e_ (EUser "%s"%%string) | _ => false end.' % (len(kept), call, r[1]))
+        elif op == "find":
+            lines.append("Definition c%d : bool := match %s with FRet (a_, b_) => (a_ =? %d) && (b_ =? %d) | _ => false end." % (len(kept), call, r[1][0], r[1][1]))
+        else:
+            lines.append("Definition c%d : bool := match %s with FRet l_ => legs_eqb l_ %s | _ => false end." % (len(kept), call, coq_legs(r[1])))
+        kept.append((["check_dependency_one_leg", legs, [op] + args], r))
+    src.append("Fixpoint legs_eqb (a b : list (list pstr)) : bool := match a, b with [], [] => true | x :: a', y :: b' => lps_eqb x y && legs_eqb a' b' | _, _ => false end.")
     src.append("Definition exn_eqb (a b : exn) : bool := match a, b with EUser x, EUser y => String.eqb x y | EZeroDivision, EZeroDivision | EKey, EKey | EType, EType | EIndex, EIndex => true | _, _ => false end.")
     src.append("Definition sameu (r e : fres unit) : bool := match r, e with FRet _, FRet _ => true | FRaised a, FRaised b => exn_eqb a b | _, _ => false end.")
     src += lines
@@ -152,7 +195,7 @@ def validate_queue_translation(ck, base, count):
     disorder = [g for g, qd in kept if g[0] != "check_dependency_one_leg" and (sorted(qd) != sorted(g) or any(not any(G.anti(qd[i], qd[j]) for j in range(i)) for i in range(1, len(qd))))]
     return {"cases": len(kept), "agree": sum(1 for v in vals if v == "true"), "disagree": [kept[i][0] for i, v in enumerate(vals) if v != "true"],
             "implementation_raised": sum(1 for r in res if r[0] != "ok"), "queue_not_a_connected_order": disorder,
-            "check_dependency_outcomes": dkinds,
+            "check_dependency_outcomes": dkinds, "legs_operations": lkinds,
             "sizes": {str(k): sum(1 for g, _ in kept if g[0] != "check_dependency_one_leg" and len(g) == k) for k in sorted({len(g) for g, _ in kept if g[0] != "check_dependency_one_leg"})}}
 
 
